@@ -225,6 +225,7 @@ pub struct Acc {
     pub rejected_without_polling_body: u64,
     pub polled_after_terminal: u64,
     pub head_samples: Vec<Value>,
+    pub history_dependent_unattributed: u64,
 }
 
 impl Acc {
@@ -262,6 +263,7 @@ impl Acc {
         self.rejected_without_polling_body += o.rejected_without_polling_body;
         self.polled_after_terminal += o.polled_after_terminal;
         self.head_samples.extend(o.head_samples);
+        self.history_dependent_unattributed += o.history_dependent_unattributed;
     }
 }
 
@@ -277,6 +279,40 @@ struct Unit {
     /// work split: this unit handles the frame sequences whose index is `shard` mod `shards`
     shard: usize,
     shards: usize,
+}
+
+/// set by main when Part A2 found a history-dependent verdict
+pub static HISTORY_DEPENDENCE_KNOWN: std::sync::atomic::AtomicBool = std::sync::atomic::AtomicBool::new(false);
+
+thread_local! {
+    /// the cases this thread executed last (to attribute history-dependent verdicts)
+    static PREV_CASES: std::cell::RefCell<std::collections::VecDeque<CaseA>> = const { std::cell::RefCell::new(std::collections::VecDeque::new()) };
+}
+const HISTORY_RING: usize = 512;
+
+fn remember(case: &CaseA) {
+    PREV_CASES.with(|p| {
+        let mut p = p.borrow_mut();
+        if p.len() == HISTORY_RING {
+            p.pop_front();
+        }
+        p.push_back(case.clone());
+    });
+}
+
+/// Run `history` (each case to completion) and then `second` on a FRESH thread; judge `second`.
+fn seq_on_fresh_thread(history: &[CaseA], second: &CaseA) -> (RunA, Vec<(String, String)>) {
+    let (h, s) = (history.to_vec(), second.clone());
+    std::thread::spawn(move || {
+        for c in &h {
+            run_case(c);
+        }
+        let run = run_case(&s);
+        let v = check(&s, &run);
+        (run, v)
+    })
+    .join()
+    .unwrap_or_else(|_| verif_common::machinery_error("history worker panicked (harness bug)"))
 }
 
 fn eval(acc: &mut Acc, order: (usize, u64), case: &CaseA) {
@@ -326,7 +362,43 @@ fn eval(acc: &mut Acc, order: (usize, u64), case: &CaseA) {
         // determinism: the same case must violate the same clauses again
         let again = check(case, &run_case(case));
         if again.iter().map(|x| &x.0).ne(viol.iter().map(|x| &x.0)) {
-            verif_common::machinery_error(&format!("nondeterministic verdict for case {}", case.to_json()));
+            // the verdict depends on what this thread executed before: hidden state in the subject. Attribute it to
+            // the pair (previous case on this thread, this case) on a fresh thread; if that does not reproduce it
+            // either, the harness cannot explain the observation.
+            let ring: Vec<CaseA> = PREV_CASES.with(|p| p.borrow().iter().cloned().collect());
+            for k in 1..=ring.len() {
+                let hist = &ring[ring.len() - k..];
+                let (run2, viol2) = seq_on_fresh_thread(hist, case);
+                if !viol2.is_empty() {
+                    for (key, what) in viol2 {
+                        let key = format!("history:{key}");
+                        acc.violations.entry(key).or_insert_with(|| {
+                            (
+                                (0, order.0, order.1),
+                                format!("after {k} other extraction(s) on the same thread: {what}"),
+                                json!({"case": {"part": "A2", "history": hist.iter().map(|c| c.to_json()).collect::<Vec<_>>(), "second": case.to_json()},
+                                       "observed": run2.outcome.to_json()}),
+                            )
+                        });
+                    }
+                    remember(case);
+                    return;
+                }
+            }
+            if HISTORY_DEPENDENCE_KNOWN.load(Ordering::SeqCst) {
+                // Part A2 (which ran first) has already shown, with a replayable pair, that calls on one thread influence
+                // each other; this case is one more manifestation whose origin lies further back than the ring
+                acc.history_dependent_unattributed += 1;
+                remember(case);
+                return;
+            }
+            verif_common::machinery_error(&format!(
+                "nondeterministic verdict for case {} (first run violated {:?}, second run {:?}; {} earlier cases of this thread did not reproduce it on a fresh thread)",
+                case.to_json(),
+                viol.iter().map(|x| x.0.clone()).collect::<Vec<_>>(),
+                again.iter().map(|x| x.0.clone()).collect::<Vec<_>>(),
+                ring.len()
+            ));
         }
         let vorder = (case.limit as usize + case.body.len() + case.steps.len() + case.cl.len(), order.0, order.1);
         for (key, what) in viol {
@@ -337,6 +409,7 @@ fn eval(acc: &mut Acc, order: (usize, u64), case: &CaseA) {
             }
         }
     }
+    remember(case);
 }
 
 pub fn run(b: &BoundsA, seed: i64, threads: usize) -> Acc {
@@ -425,6 +498,228 @@ pub fn run(b: &BoundsA, seed: i64, threads: usize) -> Acc {
         }
     });
     total
+}
+
+
+// ------------------------------------------------------------------------------------------------
+// Part A2: HISTORIES. The extractor is a pure function of (head, body, limit): what one call
+// returns must not depend on the calls made before it on the same thread (successful, failed
+// half-way, or abandoned: the future dropped after a few polls). All ordered pairs
+// (first, second) over a reduced case set, `first` also in its abandoned variants.
+// ------------------------------------------------------------------------------------------------
+
+/// Poll the extraction future of `case` `polls` times, then drop it (a client that went away,
+/// a handler that was cancelled). Returns true if the future completed before being dropped.
+pub fn run_case_abandoned(case: &CaseA, polls: usize) -> bool {
+    let mut headers = http::HeaderMap::new();
+    for v in &case.cl {
+        if let Ok(hv) = http::HeaderValue::from_bytes(v) {
+            headers.append(http::header::CONTENT_LENGTH, hv);
+        }
+    }
+    let head = head_with(headers);
+    let (body, _log) = ScriptedBody::new(&case.body, &case.steps, case.terminal, case.hint);
+    let max = ByteUnit::Byte(case.limit);
+    crate::IN_SUBJECT.with(|f| f.set(true));
+    let done = catch_unwind(AssertUnwindSafe(|| {
+        let waker = std::task::Waker::noop();
+        let mut cx = std::task::Context::from_waker(waker);
+        let mut fut = Box::pin(BufferedBody::verif_extract_with_limit(&head, body, max));
+        for _ in 0..polls {
+            if fut.as_mut().poll(&mut cx).is_ready() {
+                return true;
+            }
+        }
+        false
+    }))
+    .unwrap_or(false);
+    crate::IN_SUBJECT.with(|f| f.set(false));
+    done
+}
+
+/// The reduced case set of the history dimension.
+pub fn history_cases(max_n: u64) -> Vec<CaseA> {
+    let mut out = Vec::new();
+    // quick (max_n = 2): limit 2 only; thorough: limits 2 and 4
+    let limits: Vec<u64> = [2u64, 4].into_iter().filter(|n| *n <= max_n.max(2)).collect();
+    for &n in &limits {
+        for len in [0usize, 1, n as usize, n as usize + 1, n as usize + 2] {
+            if len > MAX_FAMILY_LEN {
+                continue;
+            }
+            let body = family_body(FAMILIES[0], len);
+            let mut frame_sets: Vec<Vec<usize>> = vec![if len == 0 { vec![] } else { vec![len] }];
+            if len >= 2 {
+                frame_sets.push(vec![1, len - 1]);
+                frame_sets.push(vec![len - 1, 1]);
+                frame_sets.push(vec![1; len]);
+            }
+            for fs in frame_sets {
+                for terminal in [Terminal::End, Terminal::Error] {
+                    for pend in [false, true] {
+                        let mut steps: Vec<Step> = Vec::new();
+                        for (i, k) in fs.iter().enumerate() {
+                            steps.push(Step::Data(*k));
+                            if pend && i == 0 {
+                                steps.push(Step::Pending);
+                            }
+                        }
+                        if pend && fs.is_empty() {
+                            steps.push(Step::Pending);
+                        }
+                        for (label, cl) in [("absent".to_string(), Vec::<Vec<u8>>::new()), ("L".to_string(), vec![len.to_string().into_bytes()])] {
+                            out.push(CaseA {
+                                limit: n,
+                                family: FAMILIES[0].to_string(),
+                                body: body.clone(),
+                                steps: steps.clone(),
+                                terminal,
+                                cl_label: label,
+                                cl,
+                                hint: Hint::Unknown,
+                            });
+                        }
+                    }
+                }
+            }
+        }
+    }
+    out
+}
+
+#[derive(Default)]
+pub struct AccH {
+    pub pairs: u64,
+    pub abandoned_firsts: u64,
+    pub cases: usize,
+    pub violations: BTreeMap<String, (usize, String, Value)>,
+}
+
+fn pair_json(first: &CaseA, abandon: Option<usize>, second: &CaseA, run: &RunA) -> Value {
+    json!({"case": {"part": "A2", "first": first.to_json(), "first_abandoned_after_polls": abandon, "second": second.to_json()},
+           "observed": run.outcome.to_json()})
+}
+
+/// Run [first (possibly abandoned), second] on a FRESH thread and judge `second`.
+fn pair_on_fresh_thread(first: &CaseA, abandon: Option<usize>, second: &CaseA) -> (RunA, Vec<(String, String)>) {
+    let (f, s) = (first.clone(), second.clone());
+    std::thread::spawn(move || {
+        match abandon {
+            Some(k) => {
+                run_case_abandoned(&f, k);
+            }
+            None => {
+                run_case(&f);
+            }
+        }
+        let run = run_case(&s);
+        let v = check(&s, &run);
+        (run, v)
+    })
+    .join()
+    .unwrap_or_else(|_| verif_common::machinery_error("history worker panicked (harness bug)"))
+}
+
+pub fn run_histories(max_n: u64, threads: usize) -> AccH {
+    let cases = history_cases(max_n);
+    let n = cases.len();
+    // (first index, abandon variant): None = run to completion, Some(k) = dropped after k polls
+    let variants: Vec<Option<usize>> = vec![None, Some(1), Some(2), Some(3)];
+    let next = AtomicUsize::new(0);
+    let mut total = AccH { cases: n, ..Default::default() };
+    std::thread::scope(|s| {
+        let handles: Vec<_> = (0..threads.max(1))
+            .map(|_| {
+                s.spawn(|| {
+                    let mut acc = AccH::default();
+                    loop {
+                        let i = next.fetch_add(1, Ordering::SeqCst);
+                        if i >= n * variants.len() {
+                            break;
+                        }
+                        let (fi, ab) = (i / variants.len(), variants[i % variants.len()]);
+                        let first = &cases[fi];
+                        if ab.is_some() {
+                            acc.abandoned_firsts += 1;
+                        }
+                        for second in &cases {
+                            // every pair starts from a thread that has never called the extractor: the pair is the whole history
+                            let (run, viol) = pair_on_fresh_thread(first, ab, second);
+                            acc.pairs += 1;
+                            if viol.is_empty() {
+                                continue;
+                            }
+                            // determinism: the same pair, again on a fresh thread, must show the same clauses
+                            let (run2, viol2) = pair_on_fresh_thread(first, ab, second);
+                            if viol2.iter().map(|x| &x.0).ne(viol.iter().map(|x| &x.0)) {
+                                verif_common::machinery_error(&format!(
+                                    "nondeterministic verdict for history {}",
+                                    pair_json(first, ab, second, &run)
+                                ));
+                            }
+                            let order = first.body.len() + first.steps.len() + second.body.len() + second.steps.len() + ab.unwrap_or(0);
+                            for (key, what) in viol2 {
+                                let key = format!("history:{key}");
+                                if acc.violations.get(&key).is_none_or(|cur| cur.0 > order) {
+                                    let how = match ab {
+                                        Some(k) => format!("dropped after {k} poll(s)"),
+                                        None => "run to completion".to_string(),
+                                    };
+                                    acc.violations.insert(
+                                        key,
+                                        (order, format!("after a first extraction ({how}; limit {}, {} bytes, script [{}] {:?}) on the same thread: {what}; second script [{}]",
+                                                 first.limit, first.body.len(), render_steps(&first.steps), first.terminal, render_steps(&second.steps)),
+                                         pair_json(first, ab, second, &run2)),
+                                    );
+                                }
+                            }
+                        }
+                    }
+                    acc
+                })
+            })
+            .collect();
+        for h in handles {
+            match h.join() {
+                Ok(a) => {
+                    total.pairs += a.pairs;
+                    total.abandoned_firsts += a.abandoned_firsts;
+                    for (k, v) in a.violations {
+                        if total.violations.get(&k).is_none_or(|cur| cur.0 > v.0) {
+                            total.violations.insert(k, v);
+                        }
+                    }
+                }
+                Err(_) => verif_common::machinery_error("a Part A2 worker thread panicked (harness bug)"),
+            }
+        }
+    });
+    total
+}
+
+pub fn replay_history(v: &Value) -> bool {
+    if let Some(hist) = v.get("history").and_then(|h| h.as_array()) {
+        let hist: Vec<CaseA> = hist.iter().map(CaseA::from_json).collect();
+        let second = CaseA::from_json(v.get("second").unwrap_or_else(|| verif_common::machinery_error("history replay lacks `second`")));
+        let (run, viol) = seq_on_fresh_thread(&hist, &second);
+        println!("history of {} case(s), then: {}", hist.len(), second.to_json());
+        println!("observed for the last case: {}", run.outcome.to_json());
+        for (k, w) in &viol {
+            println!("violated: {k}: {w}");
+        }
+        return !viol.is_empty();
+    }
+    let first = CaseA::from_json(v.get("first").unwrap_or_else(|| verif_common::machinery_error("history replay lacks `first`")));
+    let second = CaseA::from_json(v.get("second").unwrap_or_else(|| verif_common::machinery_error("history replay lacks `second`")));
+    let ab = v.get("first_abandoned_after_polls").and_then(|x| x.as_u64()).map(|x| x as usize);
+    let (run, viol) = pair_on_fresh_thread(&first, ab, &second);
+    println!("first: {} abandoned_after={ab:?}", first.to_json());
+    println!("second: {}", second.to_json());
+    println!("observed for second: {}", run.outcome.to_json());
+    for (k, w) in &viol {
+        println!("violated: {k}: {w}");
+    }
+    !viol.is_empty()
 }
 
 /// Replay one case: prints observed vs expected, returns true if it still violates.
